@@ -403,3 +403,94 @@ class Facts:
             if k not in color:
                 dfs(k, [])
         return cyc
+
+
+# ---------------------------------------------------------------------------
+# value tracing through single-definition temporaries
+
+def expr(f, defs, op, depth=10):
+    """Symbolic description of an operand, looking through temporaries assigned exactly once.
+
+    ('const', value|text) ('load', place) ('local', n) ('binop', op, l, r) ('unop', op, x) ('agg', adt, variant, [xs])
+    ('cast', kind, x) ('ref', place) ('discr', place) ('call', path, [xs]) ('fn', path)
+    """
+    k = op.get('k')
+    if k == 'const':
+        if 'fn' in op:
+            return ('fn', op['fn'])
+        if 'val' in op:
+            return ('const', op['val'])
+        return ('const', op.get('dbg') or op.get('named') or op['ty'].get('s'))
+    if k not in ('copy', 'move'):
+        return ('unknown', str(op)[:60])
+    pl = op['place']
+    return expr_place(f, defs, pl, depth)
+
+
+def expr_place(f, defs, pl, depth=10):
+    loc = pl['local']
+    if depth > 0 and loc in defs:
+        d = defs[loc]
+        if not pl['proj']:
+            if d[0] == 'rv':
+                return expr_rv(f, defs, d[1], depth - 1)
+            t = d[1]
+            return ('call', call_path(t) or '<indirect>', [expr(f, defs, a, depth - 1) for a in t['args']])
+        # (x WithOverflow y).0
+        if d[0] == 'rv' and d[1]['k'] == 'binop' and d[1]['op'].endswith('WithOverflow') and len(pl['proj']) == 1 \
+                and pl['proj'][0]['k'] == 'field' and pl['proj'][0]['i'] == 0:
+            return ('binop', d[1]['op'][:-len('WithOverflow')], expr(f, defs, d[1]['l'], depth - 1), expr(f, defs, d[1]['r'], depth - 1))
+        # field of a locally built aggregate
+        if d[0] == 'rv' and d[1]['k'] == 'aggregate' and len(pl['proj']) == 1 and pl['proj'][0]['k'] == 'field':
+            i = pl['proj'][0]['i']
+            if i < len(d[1]['ops']):
+                return expr(f, defs, d[1]['ops'][i], depth - 1)
+        # deref of a local that is a plain reborrow: (*_x) where _x = &(*_y).field...
+        if d[0] == 'rv' and d[1]['k'] == 'ref' and pl['proj'] and pl['proj'][0]['k'] == 'deref':
+            inner = d[1]['place']
+            merged = {'local': inner['local'], 'proj': inner['proj'] + pl['proj'][1:], 'ty': pl['ty']}
+            return expr_place(f, defs, merged, depth - 1)
+        if d[0] == 'rv' and d[1]['k'] == 'use' and d[1]['x']['k'] in ('copy', 'move') and pl['proj']:
+            inner = d[1]['x']['place']
+            merged = {'local': inner['local'], 'proj': inner['proj'] + pl['proj'], 'ty': pl['ty']}
+            return expr_place(f, defs, merged, depth - 1)
+    if not pl['proj']:
+        return ('local', loc)
+    return ('load', pl)
+
+
+def expr_rv(f, defs, rv, depth=10):
+    k = rv['k']
+    if k == 'use':
+        return expr(f, defs, rv['x'], depth)
+    if k == 'binop':
+        return ('binop', rv['op'], expr(f, defs, rv['l'], depth), expr(f, defs, rv['r'], depth))
+    if k == 'unop':
+        return ('unop', rv['op'], expr(f, defs, rv['x'], depth))
+    if k == 'aggregate':
+        return ('agg', rv.get('adt') or rv.get('agg'), rv.get('variant'), [expr(f, defs, o, depth) for o in rv['ops']])
+    if k == 'cast':
+        return ('cast', rv.get('kind'), expr(f, defs, rv['x'], depth))
+    if k in ('ref', 'rawptr'):
+        return ('ref', rv['place'])
+    if k == 'discr':
+        return ('discr', rv['place'])
+    return ('unknown', k)
+
+
+def is_load_of(e, adt, field):
+    """True iff expression `e` is a (possibly cast) load whose innermost field is adt.field."""
+    while e[0] == 'cast':
+        e = e[2]
+    return e[0] == 'load' and last_field(e[1]) == (adt, field)
+
+
+def expr_mentions_field(e, adt, field):
+    if e[0] == 'load' or e[0] in ('ref', 'discr'):
+        return (adt, field) in fields_of(e[1])
+    for x in e[1:]:
+        if isinstance(x, tuple) and expr_mentions_field(x, adt, field):
+            return True
+        if isinstance(x, list) and any(isinstance(y, tuple) and expr_mentions_field(y, adt, field) for y in x):
+            return True
+    return False
